@@ -12,7 +12,7 @@ VARIABLES a, w, v, amb
 hvars == <<a, w, v, amb>>
 HInit == /\ a \in { x \in 1..NAuto : AKind[x] = "find_all" } /\ w = <<>> /\ v = <<>> /\ amb = FALSE
 HNext == /\ Len(w) < MaxLen
-         /\ \E c \in 1..ANClasses[a] : w' = Append(w, c)
+         /\ \E c \in ARealistic[a] : w' = Append(w, c)      \* classes a lexer can produce (C15 covers all classes)
          /\ v' = HSearch(a, w')
          /\ amb' = AnyAmbiguous(a, w')      \* sequences on which some attempt is ambiguous are C15's subject
          /\ a' = a
